@@ -279,27 +279,30 @@ def d1_within_tolerance(ctx, idx):
                         n_inf += 1
                         p, env = path_for(x, y, tol)
                         where = lib.loc(fi, p.leaf.stmt)
-                        try:
-                            got = mev.ev(p.leaf.expr, env)
-                        except mev.Unsupported:
-                            tolform = _split_decision(idx, fi.module, p.leaf.expr) is not None or \
-                                _entrywise_form(idx, fi.module, p.leaf.expr)
-                            if tolform and bad is None:
-                                bad = ('for x=%r, y=%r the tolerance comparison `%s` is used: inf - inf is nan and nan <= t is False, so an '
-                                       'infinite answer no longer matches the same infinity (or an infinity is compared by norm at all)'
-                                       % (x, y, short(p.leaf.expr, 70)), where)
-                            elif not tolform and und is None:
-                                und = ('result for x=%r, y=%r not recognised: %s' % (x, y, short(p.leaf.expr)), where)
+                        # the leaf is judged by its FORM only (normal form x == y), never by evaluating it
+                        leaf = p.leaf.expr
+                        res = nf.classify('%s == %s' % (px, py), leaf)
+                        if res == nf.MATCH:
                             continue
-                        if bool(got) != (x == y) and bad is None:
-                            bad = ('for x=%r, y=%r the result is %r (`%s`), expected %r: an infinite value must match only the same '
-                                   'infinity' % (x, y, got, short(p.leaf.expr, 60), x == y), where)
+                        cls = 'x %s, y %s' % tuple('= +inf' if v == INF else ('= -inf' if v == -INF else 'finite') for v in (x, y))
+                        tolform = _split_decision(idx, fi.module, leaf) is not None or _entrywise_form(idx, fi.module, leaf)
+                        if isinstance(res, tuple) and bad is None:
+                            bad = ('for the operand class (%s) the result is `%s`: %s -- an infinite value must match only the same '
+                                   'infinity' % (cls, short(leaf, 60), res[1]), where)
+                        elif isinstance(leaf, ast.Constant) and bad is None:
+                            bad = ('for the operand class (%s) the constant %r is returned instead of x == y' % (cls, leaf.value), where)
+                        elif tolform and bad is None:
+                            bad = ('for the operand class (%s) the tolerance comparison `%s` is used: inf - inf is nan and nan <= t is '
+                                   'False, so an infinite answer no longer matches the same infinity' % (cls, short(leaf, 70)), where)
+                        elif und is None and not isinstance(res, tuple) and not isinstance(leaf, ast.Constant) and not tolform:
+                            und = ('result for the operand class (%s) not recognised: %s' % (cls, short(leaf)), where)
             if bad and understood:
                 r.violation(C + ': infinity clause', bad[0], bad[1], expected='if x or y is +-inf: return x == y')
             elif bad or und:
                 r.undecided(C + ': infinity clause', (bad or und)[0], (bad or und)[1])
             else:
-                r.ok(C + ': infinity clause', 'x == y for all %d model inputs with an infinite operand' % n_inf, fi.loc)
+                r.ok(C + ': infinity clause', 'every operand class with x or y = +-inf (order type against +-inf, %d classes) returns '
+                     'the normal form x == y' % n_inf, fi.loc)
             # ---- arrays never reach the infinity test
             try:
                 for tol in (0.5, '10%'):
@@ -387,6 +390,157 @@ def _check_pair(r, construct, where, role0, role1, what, why):
 WHY_SWAP = "a percentage tolerance becomes relative to the student's value and shape validation is applied to the wrong side"
 
 
+def _binding_role(e, contexts, p_auth, p_stud):
+    """Role of a comparer argument: ('A'|'S', 'whole'|'elem') or None.  `contexts` = [(target, iter expr)] innermost first."""
+    if isinstance(e, ast.Name) and e.id == p_auth:
+        return ('A', 'whole')
+    if isinstance(e, ast.Name) and e.id == p_stud:
+        return ('S', 'whole')
+    if not isinstance(e, ast.Name):
+        return None
+    for target, it in contexts:
+        names = [fl.name_of(t) for t in target.elts] if isinstance(target, (ast.Tuple, ast.List)) else [fl.name_of(target)]
+        if e.id not in names:
+            continue
+        i = names.index(e.id)
+        seq, _ = fl.unwrap_seq(it)
+        if isinstance(seq, ast.Call) and nf.callee_name(seq) == 'zip' and isinstance(target, (ast.Tuple, ast.List)) \
+                and len(seq.args) == len(names):
+            src = seq.args[i]
+            if fl.name_of(src) == p_auth:
+                return ('A', 'elem')
+            if fl.name_of(src) == p_stud:
+                return ('S', 'elem')
+            return None
+        if isinstance(seq, (ast.List, ast.Tuple)) and len(seq.elts) == 1 and isinstance(seq.elts[0], (ast.Tuple, ast.List)) \
+                and isinstance(target, (ast.Tuple, ast.List)) and len(seq.elts[0].elts) == len(names):
+            src = seq.elts[0].elts[i]       # a one-element sequence: the loop body runs once on the whole lists
+            if fl.name_of(src) == p_auth:
+                return ('A', 'whole')
+            if fl.name_of(src) == p_stud:
+                return ('S', 'whole')
+            return None
+        return None
+    return None
+
+
+def _hop3(r, idx, fi):
+    from ..index import set_parents
+    p_self, p_auth, p_stud, p_cmp, p_utils = fi.params
+    mutated = {fl.name_of(c.func.value) for c in walk_own(fi.node) if isinstance(c, ast.Call) and isinstance(c.func, ast.Attribute)
+               and c.func.attr in ('append', 'extend', 'insert')}
+    returned = {fl.name_of(x.value) for x in lib.returns_of(fi.node)}
+    keep = tuple(n for n in (mutated | returned) if n)
+    paths = nf.decision_paths(fi.node.body, keep_locals=keep)
+    found = {True: [], False: []}        # correlated? -> list of (problem kind, text, loc) ; 'ok' entries too
+    for p in paths:
+        if p.leaf.kind == 'raise':
+            continue
+        pos = any(nf.match('isinstance(%s, CorrelatedComparer)' % p_cmp, g) is not None for g in p.guards)
+        neg = any(nf.match('not isinstance(%s, CorrelatedComparer)' % p_cmp, g) is not None for g in p.guards)
+        if pos == neg:
+            polarities = [True, False] if not pos else []
+        else:
+            polarities = [pos]
+        roots = list(p.effects) + ([p.leaf.expr] if p.leaf.expr is not None else [])
+        leaf_name = fl.name_of(p.leaf.expr) if p.leaf.kind == 'ret' else None
+        apps = []
+        for root in roots:
+            set_parents(root)
+            for c in ast.walk(root):
+                if isinstance(c, ast.Call) and isinstance(c.func, ast.Name) and c.func.id == p_cmp:
+                    apps.append((root, c))
+        for pol in polarities:
+            tag = 'correlated' if pol else 'per sample'
+            if not apps:
+                found[pol].append(('none', 'no comparer call on the %s path' % tag, fi.loc))
+                continue
+            for root, c in apps:
+                where = lib.loc(fi, c) if getattr(c, 'lineno', None) else fi.loc
+                if len(c.args) != 3 or c.keywords:
+                    found[pol].append(('und', 'call shape not recognised: %s' % short(c), where))
+                    continue
+                contexts, loops, skipping = [], [], []
+                for a in ancestors(c):
+                    if isinstance(a, (ast.ListComp, ast.GeneratorExp, ast.SetComp)):
+                        for g in reversed(a.generators):
+                            contexts.append((g.target, g.iter))
+                            if g.ifs:
+                                skipping.append(g.ifs[0])
+                    elif isinstance(a, ast.For):
+                        contexts.append((a.target, a.iter))
+                        loops.append(a)
+                    elif isinstance(a, ast.While):
+                        found[pol].append(('und', 'while loop around the comparer call', where))
+                roles = (_binding_role(c.args[0], contexts, p_auth, p_stud), _binding_role(c.args[1], contexts, p_auth, p_stud))
+                want = (('A', 'whole'), ('S', 'whole')) if pol else (('A', 'elem'), ('S', 'elem'))
+                if roles == want:
+                    found[pol].append(('ok', '', where))
+                elif roles == (want[1], want[0]):
+                    found[pol].append(('swap', 'the first two arguments are swapped: the student\'s value is passed where the author\'s is '
+                                       'expected and vice versa; ' + WHY_SWAP, where))
+                elif None not in roles and roles[0][0] == roles[1][0]:
+                    found[pol].append(('same', 'both arguments derive from the %s side: the other side is not compared at all'
+                                       % ('author\'s' if roles[0][0] == 'A' else 'student\'s'), where))
+                elif None not in roles and not pol and roles == (('A', 'whole'), ('S', 'whole')):
+                    found[pol].append(('noloop', 'the per-sample comparison receives the whole lists once instead of running once per '
+                                       'sample', where))
+                else:
+                    found[pol].append(('und', 'arguments %s / %s not traced to the parameters' % (short(c.args[0]), short(c.args[1])), where))
+                if not (isinstance(c.args[2], ast.Name) and c.args[2].id == p_utils):
+                    found[pol].append(('und', 'third argument is not the utils parameter: %s' % short(c.args[2]), where))
+                if not pol:
+                    for lp in loops:
+                        ex = [e for e in lib.loop_has_early_exit(lp) if not isinstance(e, ast.Raise)]
+                        if ex:
+                            found[pol].append(('exit', 'the loop over the samples is left early (`%s`): later samples are never compared'
+                                               % short(ex[0]), where))
+                    for sk in skipping:
+                        found[pol].append(('exit', 'the comprehension skips samples under `%s`' % short(sk), where))
+                # collection: the result must end up in the returned list
+                collected = False
+                if root is p.leaf.expr:
+                    collected = True
+                elif leaf_name:
+                    holder = {leaf_name}
+                    for n in ast.walk(root):
+                        if isinstance(n, ast.Assign) and any(x is c for x in ast.walk(n.value)):
+                            for t in n.targets:
+                                if isinstance(t, ast.Name):
+                                    if t.id == leaf_name:
+                                        collected = True
+                                    holder.add(t.id)
+                    for n in ast.walk(root):
+                        if isinstance(n, ast.Call) and isinstance(n.func, ast.Attribute) and n.func.attr in ('append', 'extend') \
+                                and fl.name_of(n.func.value) == leaf_name and n.args:
+                            arg = n.args[0]
+                            if any(x is c for x in ast.walk(arg)) or (lib.names_in(arg) & (holder - {leaf_name})):
+                                collected = True
+                if not collected:
+                    found[pol].append(('und', 'cannot see the comparer result reach the returned list', where))
+    for pol in (True, False):
+        tag = 'correlated' if pol else 'per sample'
+        construct = 'MathMixin.compare_evaluations: comparer(...) [%s]' % tag
+        items = found[pol]
+        defin = [i for i in items if i[0] in ('swap', 'same', 'noloop')]
+        und = [i for i in items if i[0] in ('und', 'none')]
+        if defin:
+            r.violation(construct, defin[0][1], defin[0][2], expected='(author, student)')
+        elif und or not items:
+            r.undecided(construct, und[0][1] if und else 'no path analysed', und[0][2] if und else fi.loc)
+        else:
+            r.ok(construct, 'the first two arguments = (author, student), %s' % ('whole lists' if pol else 'sample by sample over zip(...)'),
+                 items[0][2])
+        if not pol:
+            ex = [i for i in items if i[0] == 'exit']
+            if ex:
+                r.violation(construct + ' loop', ex[0][1], ex[0][2])
+            elif defin or und or not items:
+                r.undecided(construct + ' loop', 'iteration not analysed (see the comparer call)', fi.loc)
+            else:
+                r.ok(construct + ' loop', 'every (author, student) pair of zip(...) is compared', items[0][2])
+
+
 def d2_roles(ctx, idx):
     r = ctx.rule('D2.ROLE', 'author/student roles are preserved at every hop down to within_tolerance(x=author, y=student)',
                  floor=22)
@@ -449,79 +603,11 @@ def d2_roles(ctx, idx):
                     r.ok(fi.qualname + ': comparer', "answer['expect']['comparer']", lib.loc(fi, ccall))
                 else:
                     r.undecided(fi.qualname + ': comparer', 'comparer argument not recognised: %s' % short(c2), lib.loc(fi, ccall))
-        # hop 3: compare_evaluations -> comparer(author, student, utils), decided by interpreting the body on a model
+        # hop 3: compare_evaluations -> comparer(author, student, utils); every form of iteration is seen alike
         fi = idx.func(MM + '.compare_evaluations')
         if len(fi.params) != 5:
             raise AnalysisError('compare_evaluations: unexpected parameter list %s' % fi.params)
-        p_self, p_auth, p_stud, p_cmp, p_utils = fi.params
-        understood = not idx.unreviewed
-        for corr in (True, False):
-            tag = 'correlated' if corr else 'per sample'
-            construct = 'MathMixin.compare_evaluations: comparer(...) [%s]' % tag
-            A, S, U = ['A1', 'A2', 'A3'], ['S1', 'S2', 'S3'], object()
-            calls = []
-
-            def comparer(*args, **kw):
-                calls.append((args, kw))
-                return ('verdict', len(calls))
-
-            def standardize(v):
-                return ('std', v)
-            env = {p_auth: list(A), p_stud: list(S), p_cmp: comparer, p_utils: U,
-                   'ItemGrader.standardize_cfn_return': standardize, "%s.config['debug']" % p_self: False,
-                   '__isinstance__': lambda v, tn, corr=corr: (corr if v is comparer and 'CorrelatedComparer' in tn else None)}
-            try:
-                kind, got, stmt = mev.call(fi.node, env)
-            except (mev.Unsupported, mev.ModelRaise) as e:
-                r.undecided(construct, 'compare_evaluations is outside the supported model evaluation (%s)' % e, fi.loc)
-                if not corr:
-                    r.undecided(construct + ' loop', 'not evaluated', fi.loc)
-                continue
-            where = lib.loc(fi, stmt) if stmt is not None else fi.loc
-            pos = [a for a, kw in calls]
-            if any(kw for a, kw in calls) or any(len(a) != 3 for a in pos):
-                r.undecided(construct, 'comparer is not called with three positional arguments', where)
-                if not corr:
-                    r.undecided(construct + ' loop', 'not evaluated', fi.loc)
-                continue
-            want = [(A, S)] if corr else list(zip(A, S))
-            have = [(a[0], a[1]) for a in pos]
-            swapped = [(s, a) for a, s in want]
-            if have == want:
-                r.ok(construct, 'the first two arguments = (author, student)', where)
-            elif have == swapped:
-                r.violation(construct, 'the first two arguments are swapped: the student\'s value is passed where the author\'s is '
-                            'expected and vice versa; ' + WHY_SWAP, where, expected='(author, student)', found='(student, author)')
-            elif not corr and have and have == want[:len(have)]:
-                r.ok(construct, 'the first two arguments = (author, student)', where)
-            elif not corr and have and all(h in want for h in have):
-                r.ok(construct, 'the first two arguments = (author, student) sample by sample', where)
-            elif have and all(h[0] == h[1] or (h[0] in A + [A]) == (h[1] in A + [A]) for h in have) and understood:
-                r.violation(construct, 'both arguments derive from the same side (%r): the other side is not compared at all' % (have[0],),
-                            where, expected='(author, student)')
-            else:
-                r.undecided(construct, 'comparer called with %r on the model, not recognised' % (have[:3],), where)
-            if any(a[2] is not U for a in pos):
-                r.undecided(construct + ' utils', 'third argument is not the utils parameter', where)
-            if not corr:
-                lc = construct + ' loop'
-                n_ok = sum(1 for h in have if h in want or h in swapped)
-                if len(have) == len(want):
-                    r.ok(lc, 'every (author, student) pair is compared', where)
-                elif len(have) < len(want) and understood:
-                    r.violation(lc, 'only %d of %d samples are compared on the model (the loop over the samples is left early or truncated): '
-                                'later samples are never compared' % (len(have), len(want)), where)
-                else:
-                    r.undecided(lc, '%d comparer calls for %d samples' % (len(have), len(want)), where)
-            # every result is collected, standardised, in order
-            if kind != 'return' or not isinstance(got, list):
-                r.undecided('MathMixin.compare_evaluations: results [%s]' % tag, 'does not return a list on the model', where)
-            elif got != [('std', ('verdict', i + 1)) for i in range(len(calls))]:
-                if len(got) < len(calls) and understood:
-                    r.violation('MathMixin.compare_evaluations: results [%s]' % tag, 'a comparer result is no longer collected (%d results for '
-                                '%d comparer calls)' % (len(got), len(calls)), where)
-                else:
-                    r.undecided('MathMixin.compare_evaluations: results [%s]' % tag, 'returned list %r not recognised' % (got[:2],), where)
+        _hop3(r, idx, fi)
         # hop 4: EqualityComparer.__call__ -> utils.within_tolerance(expected, student)
         fi = idx.func(EQC + '.__call__')
         if len(fi.params) != 4:
